@@ -332,14 +332,15 @@ class C19(PropertyCheck):
         rot_arr = responses[0]["ok"]
         it = iter(responses[1:])
         rotated = [None if r is None else next(it)["ok"] for r in case["regions"]]
-        return {"orientation_from": rot_arr, "rotated": rotated}
+        return {"orientation_from": rot_arr, "rotated": rotated, "original_orientation": rot_arr}
 
     def compare(self, case, impl_obs, model_obs, cmp):
         if case["kind"] == "layout" and isinstance(impl_obs, dict) and "err" not in impl_obs \
                 and "err" not in model_obs:
             # second-stage quantities are functions of the first-stage ones; the first stage is compared
             # with the model here, the rest is checked by the oracle against independent arithmetic
-            sub = {"orientation_from": impl_obs["orientation_from"], "rotated": impl_obs["rotated"]}
+            sub = {"orientation_from": impl_obs["orientation_from"], "rotated": impl_obs["rotated"],
+                   "original_orientation": impl_obs["original_orientation"]}
             return cmp.diff(sub, model_obs)
         if isinstance(impl_obs, dict) and "err" in impl_obs:
             impl_obs = {"err": impl_obs["err"]}
@@ -540,9 +541,12 @@ class C19(PropertyCheck):
             "rotate": ["C19.rotate_commutes_with_slice", "C19.rotateArray_twice", "C19.rotateRegion_twice"],
             "rotate_region": ["C19.rotateRegion_inside"],
             "x0x1": ["C19.x0x1_after_extraction_eq_overlap"],
-            "extract": ["C19.region_after_extraction_eq_overlap", "C19.extraction_addresses_overlap"],
-            "sub": ["C19.parallel_front_rows", "C19.parallel_trailing_rows", "C19.serial_front_columns",
-                    "C19.serial_trailing_columns", "C19.front1d_pixels", "C19.trailing1d_pixels"],
+            "extract": ["C19.region_after_extraction_eq_overlap", "C19.extraction_addresses_overlap",
+                        "C19.region_after_extraction_absent_iff"],
+            "sub": ["C19.parallel_front_rows", "C19.parallel_front_from_end_rows", "C19.parallel_trailing_rows",
+                    "C19.serial_front_columns", "C19.serial_front_from_end_columns",
+                    "C19.serial_trailing_columns", "C19.front1d_pixels", "C19.front1d_from_end_pixels",
+                    "C19.trailing1d_pixels"],
             "ctor": ["C19.region2d_rejects_iff_invalid", "C19.region1d_rejects_iff_invalid"],
             "layout": ["C19.rotate_commutes_with_slice", "C19.region_after_extraction_eq_overlap"],
         }.get(case["kind"], ["C19.*"])
